@@ -232,6 +232,25 @@ def rule_tls_restore(ctx, cfg, F):
                 f.path, len(sites), len(tables), len(user_blocks)), f.loc(sites[0][0]), cfg)
         for b, t in sites:
             R.instance("exchange %s in %s" % (strip_generics(callee_name(t)), f.path), f.loc(b), cfg)
+    # every call that drives a whole message through bincode sits in a function that exchanges the tables around it
+    DRIVERS = ("bincode::serialize_into", "bincode::serialize", "bincode::deserialize", "bincode::deserialize_from", "bincode::serialized_size")
+    for f in sorted(F.fns.values(), key=lambda x: x.path):
+        if not (f.path.startswith("ipc::") or f.path.startswith("<ipc::")):
+            continue
+        drv = [(b, t) for b, t in f.calls() if strip_generics(callee_name(t)) in DRIVERS or strip_generics(t.get("callee") or "") in DRIVERS]
+        if not drv:
+            continue
+        has_exchange = any(side_table_exchange(t) for _, t in f.calls())
+        if not has_exchange:
+            tr0 = Tracer(f)
+            has_exchange = any(st["s"] == "assign" and st["lhs"].get("p") == ["*"] and cell_key(f, tr0, {"k": "cp", "pl": {"l": st["lhs"]["l"]}})[1]
+                               for b in f.live_blocks() for st in f.stmts(b))
+        for b, t in drv:
+            if has_exchange:
+                continue
+            R.violate("%s:message-driver-outside-exchange:%s" % (strip_generics(f.path), strip_generics(callee_name(t)).split("::")[-1]),
+                      "%s runs %s in a function that does not exchange the per-thread attachment tables: when this happens inside another message's (de)serialisation, attachment "
+                      "indices of this message are resolved against the enclosing message's tables" % (f.path, strip_generics(callee_name(t))), f.path, f.loc(b), config=cfg)
     R.count("exchange_sites[%s]" % cfg, n_sites)
     R.count("user_code_calls[%s]" % cfg, n_user)
 
